@@ -49,7 +49,7 @@ def impl_action(act):
     return a
 
 
-def run_history(events, store_kind="local", keep_dir=False, hashseed="0", extra_env=None):
+def run_history(events, store_kind="local", keep_dir=False, hashseed="0", extra_env=None, cwd=None, run_ref=True, run_model=True, options=None):
     """events: list of ("prog", prog) | ("restart",) | ("act", action).  Returns list of per-action records:
     {"act", "impl": {...}, "ref": {...}, "model": {...}}.  A 'setvar' action also updates the model's view."""
     root = tempfile.mkdtemp(prefix="hist_", dir=C.scratch_dir())
@@ -73,7 +73,7 @@ def run_history(events, store_kind="local", keep_dir=False, hashseed="0", extra_
             cur["actions"].append(act)
             if act["a"] == "setvar":
                 cur_prog["modules"][act["mod"]]["vars"][act["name"]] = act["value"]
-            else:
+            elif act["a"] != "rawfile":
                 model_actions.append(action_coq(cur_prog, act))
             records.append({"act": act})
     # implementation and reference
@@ -84,15 +84,27 @@ def run_history(events, store_kind="local", keep_dir=False, hashseed="0", extra_
         shutil.rmtree(pkgroot, ignore_errors=True)
         os.makedirs(pkgroot)
         P.write_package(seg["prog"], pkgroot)
-        payload = {"root": pkgroot, "pkg": seg["prog"]["pkg"], "store": store, "actions": [impl_action(a) for a in seg["actions"]]}
-        impl_out += C.run_driver("drive_prog.py", payload, hashseed=hashseed, extra_env=extra_env)
-        ref_out += C.run_driver("drive_prog.py", dict(payload, nodds=True, kept_file=kept_file))
-    model = C.coq_eval_strings(PRELUDE, ["run_history [" + "; ".join(model_actions) + "]"], label="hist", timeout=900)[0] if model_actions else ""
-    mouts = model.split(";") if model_actions else []
+        payload = {"root": pkgroot, "pkg": seg["prog"]["pkg"], "store": store, "actions": [impl_action(a) for a in seg["actions"]],
+                   "options": options or {}}
+        for a in payload["actions"]:
+            if a.get("export") is True:
+                a["export"] = os.path.join(root, "graph.dot")
+        wd = None
+        if cwd:
+            wd = os.path.join(root, cwd)
+            os.makedirs(wd, exist_ok=True)
+        impl_out += C.run_driver("drive_prog.py", payload, hashseed=hashseed, extra_env=extra_env, cwd=wd)
+        if run_ref:
+            ref_out += C.run_driver("drive_prog.py", dict(payload, nodds=True, kept_file=kept_file))
+        else:
+            ref_out += [{"out": None, "log": []} for _ in seg["actions"]]
+    do_model = bool(model_actions) and run_model
+    model = C.coq_eval_strings(PRELUDE, ["run_history [" + "; ".join(model_actions) + "]"], label="hist", timeout=900)[0] if do_model else ""
+    mouts = model.split(";") if do_model else []
     mi = 0
     for rec, io, ro in zip(records, impl_out, ref_out):
         rec["impl"], rec["ref"] = io, ro
-        if rec["act"]["a"] != "setvar":
+        if rec["act"]["a"] not in ("setvar", "rawfile") and do_model:
             parts = mouts[mi].split("#")
             mi += 1
             rec["model"] = {"out": parts[0], "log": [x for x in parts[1].split(",") if x], "sigs": parts[2],
@@ -113,7 +125,7 @@ def impl_obs(rec):
 
 def compare(rec):
     """Differences between implementation and model for one action (empty list = agree)."""
-    if rec["act"]["a"] == "setvar":
+    if rec["act"]["a"] in ("setvar", "rawfile") or "model" not in rec:
         return []
     o, m = impl_obs(rec), rec["model"]
     diffs = []
@@ -125,6 +137,6 @@ def compare(rec):
         diffs.append(("signatures", o["sigs"], m["sigs"]))
     if o["new_keys"] != m["new_keys"]:
         diffs.append(("stored-keys", o["new_keys"], m["new_keys"]))
-    if rec["ref"]["out"] != m["plain"]:
+    if rec["ref"]["out"] is not None and rec["ref"]["out"] != m["plain"]:
         diffs.append(("reference", rec["ref"]["out"], m["plain"]))
     return diffs
